@@ -1388,3 +1388,48 @@ def measurement_rebuild_rule(ctx, rid, prefixes, floor=1):
                    f'`{ast.unparse(c)[:70]}` re-creates the measurement `{o}` from its qubits, but the branch never looks at its {" / ".join(miss)}', mod.rel, c.lineno)
     if n == 0:
         raise AnalysisError(f'{rid}: no re-created measurement found under {prefixes}')
+
+
+# ---------------------------------------------------------------------------------------------------------------------
+# Sizes from qubit counts.  A function that asks the protocols for the matrices of an arbitrary operation (kraus, unitary,
+# mixture, superoperator) and sizes something as 2**n / 4**n from the *number* of qubits is right for qubits only.
+SIZING_EXEMPT = {
+    ('cirq.ops.linear_combinations', 'LinearCombinationOfGates.matrix'): 'sum of gate matrices into a 2**n square: a qudit gate fails loudly in the addition (shape mismatch), nothing is mis-scaled',
+    ('cirq.ops.linear_combinations', 'LinearCombinationOfOperations.matrix'): 'identity tensor of shape (2,)*2n handed to apply_unitary: a qudit operation is refused there',
+    ('cirq.experiments.n_qubit_tomography', 'StateTomographyExperiment._make_state_tomography_matrix'): 'the matrices are those of the experiment\'s own rotation circuit '
+    '(Circuit.unitary with an explicit qubit order), built from the fixed qubit rotations of the protocol',
+}
+MATRIX_PROTOCOLS = {'kraus', 'unitary', 'mixture', 'superoperator', 'kraus_to_superoperator', 'apply_channel', 'apply_unitary', '_superoperator_', '_kraus_'}
+
+
+def dimension_aware_sizing_rule(ctx, rid, prefixes, floor=2):
+    repo = ctx.repo
+    ctx.decided.append(f'{rid} a function that takes matrices from the protocols and sizes by 2**n / 4**n of a qubit count also consults the dimensions (qid_shape / dimension), or is tabled')
+    ctx.rule(rid, 'sizes come from dimensions: a function that obtains matrices of arbitrary operations through the protocols (kraus / unitary / mixture / superoperator / apply_*) and '
+             'computes 2**n or 4**n from num_qubits / len(qubits) also reads qid_shape or dimension (to size by them or to refuse) - otherwise a qutrit channel is normalised or reshaped '
+             'as if it were a qubit channel (entanglement_fidelity of the qutrit identity = 2.25)', floor=floor, style='COH')
+    n = 0
+    for mod, ci, fn in repo.all_functions():
+        if mod.rel.endswith('_test.py') or '/testing/' in mod.rel or '/contrib/' in mod.rel or not any(mod.rel.startswith(p) for p in prefixes):
+            continue
+        pows = [b for b in ast.walk(fn) if isinstance(b, ast.BinOp) and isinstance(b.op, ast.Pow) and isinstance(b.left, ast.Constant) and b.left.value in (2, 4)]
+        if not pows:
+            continue
+        nq = set()
+        for a in ast.walk(fn):
+            if isinstance(a, ast.Assign) and len(a.targets) == 1 and isinstance(a.targets[0], ast.Name):
+                src = ast.unparse(a.value)
+                if 'num_qubits' in src or ('len(' in src and 'qubits' in src):
+                    nq.add(a.targets[0].id)
+        hits = [b for b in pows if (isinstance(b.right, ast.Name) and b.right.id in nq) or 'num_qubits' in ast.unparse(b.right)
+                or ('len(' in ast.unparse(b.right) and 'qubits' in ast.unparse(b.right))]
+        if not hits or not any(isinstance(c, ast.Call) and call_name(c).split('.')[-1] in MATRIX_PROTOCOLS for c in ast.walk(fn)):
+            continue
+        name = (ci.name + '.' if ci else '') + fn.name
+        n += 1
+        src = ast.unparse(fn)
+        ok = 'qid_shape' in src or '.dimension' in src or (mod.name, name) in SIZING_EXEMPT
+        ctx.ob(rid, f'{mod.name}.{name}:sized-by-dimensions', ok, '' if ok else
+               f'`{ast.unparse(hits[0])}` sizes by the number of qubits while the matrices come from the protocols for any operation; the function never looks at qid_shape / dimension',
+               mod.rel, hits[0].lineno)
+    return n
